@@ -633,7 +633,9 @@ def _peer(ck: Checker, prog: Program):
     rows = [st for st in fl.body if isinstance(st, ast.For) and "finditer" in unparse(st.iter)]
     if len(rows) != 1:
         raise AnalysisError(f"{q}: sample loop not found")
-    _counter_and_check(ck, f, q, rows[0], "peer_npts_exec")
+    counters = [st.target.id for st in rows[0].body if isinstance(st, ast.AugAssign) and isinstance(st.target, ast.Name) and isinstance(st.op, ast.Add)
+                and isinstance(st.value, ast.Constant) and st.value.value == 1]
+    _counter_and_check(ck, f, q, rows[0], "peer_npts_exec", counters[0] if len(counters) == 1 else "idx")
     # ---- structural facts of the PEER reader (no source fragments: names and layout are free)
     cfg = cfg_of(f)
     # parallel lists: initialised empty before the per-file loop, appended exactly once per file
@@ -661,11 +663,35 @@ def _peer(ck: Checker, prog: Program):
         ck.ok("C07.R1", q, f"per file exactly one entry is appended to each of {sorted(par)}", detail="component, key and time-step lists stay aligned")
     else:
         ck.violation("C07.R1", q, "per-file lists", f"per file the lists {sorted(par)} receive {sorted(res)} entries: keys, time steps and components would not stay aligned", loc=f.loc(fl))
+    # one list of per-file tuples, split afterwards into lists by position ([t[k] for t in parsed]): the derived lists are the
+    # parallel lists, entry k of every appended tuple is what each of them receives per file
+    appended = {nm: (v[0].args[0], v[0]) for nm, v in par.items()}        # list -> (what is appended, where)
+    if len(par) == 1:
+        (only, v), = par.items()
+        tup = v[0].args[0]
+        if isinstance(tup, ast.Name):
+            defs_ = [x for x in ast.walk(fl) if isinstance(x, ast.Assign) and len(x.targets) == 1 and isinstance(x.targets[0], ast.Name) and x.targets[0].id == tup.id]
+            tup = defs_[-1].value if len(defs_) == 1 else tup
+        if isinstance(tup, ast.Tuple):
+            derived = {}
+            for st in f.node.body:
+                if isinstance(st, ast.Assign) and len(st.targets) == 1 and isinstance(st.targets[0], ast.Name) and isinstance(st.value, ast.ListComp) \
+                        and len(st.value.generators) == 1 and not st.value.generators[0].ifs and isinstance(st.value.generators[0].iter, ast.Name) \
+                        and st.value.generators[0].iter.id == only and st.lineno > fl.lineno:
+                    g = st.value.generators[0]
+                    if isinstance(g.target, ast.Tuple) and len(g.target.elts) == len(tup.elts) and isinstance(st.value.elt, ast.Name):
+                        ks = [k for k, e in enumerate(g.target.elts) if isinstance(e, ast.Name) and e.id == st.value.elt.id]
+                        if len(ks) == 1:
+                            derived[st.targets[0].id] = ks[0]
+                    elif isinstance(g.target, ast.Name) and isinstance(st.value.elt, ast.Subscript) and isinstance(st.value.elt.value, ast.Name) \
+                            and st.value.elt.value.id == g.target.id and isinstance(st.value.elt.slice, ast.Constant) and isinstance(st.value.elt.slice.value, int):
+                        derived[st.targets[0].id] = st.value.elt.slice.value
+            if len(derived) >= 3:
+                appended = {nm: (tup.elts[k], v[0]) for nm, k in derived.items() if 0 <= k < len(tup.elts)}
     # which list is which: by what is appended (regex group / TimeSeries)
     keys_l = dts_l = comp_l = None
-    for nm, v in par.items():
-        a = v[0].args[0]
-        srcs, stmts = value_sources(f, a, v[0])
+    for nm, (a, at_) in appended.items():
+        srcs, stmts = value_sources(f, a, at_)
         text = " ".join(unparse(x.value) if isinstance(x, ast.Assign) else "" for x in stmts) + " " + unparse(a)
         if "TimeSeries(" in text and comp_l is None and isinstance(a, ast.Call) and call_name(a) == "TimeSeries":
             comp_l = nm
@@ -674,14 +700,14 @@ def _peer(ck: Checker, prog: Program):
         elif "peer_dt_exec" in text:
             dts_l = nm
     if None in (keys_l, dts_l, comp_l):
-        raise AnalysisError(f"{q}: the lists of component keys / time steps / components were not identified ({sorted(par)})")
+        raise AnalysisError(f"{q}: the lists of component keys / time steps / components were not identified ({sorted(appended)})")
     ck.ok("C07.R1", q, f"component key from the direction field, time step from the DT field, one TimeSeries per file", nontrivial=False)
     # the series appended is built from this file's samples and this file's time step
-    ts_call = par[comp_l][0].args[0]
+    ts_call, ts_at = appended[comp_l]
     dt_arg = kwarg(ts_call, "dt_in_seconds") or (ts_call.args[1] if len(ts_call.args) > 1 else None)
     amp_arg = ts_call.args[0] if ts_call.args else kwarg(ts_call, "amplitude")
-    dsrc, dst = value_sources(f, dt_arg, par[comp_l][0]) if dt_arg is not None else (set(), [])
-    asrc, ast_ = value_sources(f, amp_arg, par[comp_l][0]) if amp_arg is not None else (set(), [])
+    dsrc, dst = value_sources(f, dt_arg, ts_at) if dt_arg is not None else (set(), [])
+    asrc, ast_ = value_sources(f, amp_arg, ts_at) if amp_arg is not None else (set(), [])
     dt_ok = any("peer_dt_exec" in unparse(x) for x in dst) and all(any(y is x for y in ast.walk(fl)) for x in dst if isinstance(x, ast.Assign))
     sample_store = [st for st in ast.walk(rows[0]) if isinstance(st, ast.Assign) and isinstance(st.targets[0], ast.Subscript) and isinstance(amp_arg, ast.Name)
                     and unparse(st.targets[0].value) == amp_arg.id]
@@ -886,28 +912,68 @@ def _check_npts_rule(ck: Checker, prog: Program):
 
 
 def _read_single(ck: Checker, prog: Program):
+    """One pass of read_single's loop over the registry as a decision table: the reader is called with the caller's three
+    arguments; success ends the search with that recording; failure moves on - except for the last format ("peer"), whose
+    failure is re-raised."""
+    from ..pathtable import PathTable, literals, same_rel
     f = prog.func("data_wrangler.read_single")
     q = f.qualname
-    loops = [st for st in f.node.body if isinstance(st, ast.For)]
-    good = len(loops) == 1 and unparse(loops[0].iter) == "READ_FUNCTION_DICT.items()"
-    if good:
-        lp = loops[0]
-        fn = unparse(lp.target.elts[1])
-        cs = [c for c in calls_in(lp) if isinstance(c.func, ast.Name) and c.func.id == fn]
-        good = len(cs) == 1 and unparse(cs[0].args[0]) == "fnames" and unparse(kwarg(cs[0], "obspy_read_kwargs")) == "obspy_read_kwargs" \
-            and unparse(kwarg(cs[0], "degrees_from_north")) == "degrees_from_north"
-        tr = [st for st in lp.body if isinstance(st, ast.Try)]
-        good = good and len(tr) == 1 and any(isinstance(x, ast.If) and unparse(x.test) == "ftype == 'peer'" and any(isinstance(b, ast.Raise) for b in x.body)
-                                             for h in tr[0].handlers for x in h.body) and any(isinstance(b, ast.Break) for b in tr[0].orelse)
-    if good:
-        ck.ok("C07.R2", q, "each reader gets (fnames, obspy_read_kwargs, degrees_from_north); first success wins; failure of the last reader re-raises")
+    if f.params[:3] != ["fnames", "obspy_read_kwargs", "degrees_from_north"]:
+        raise AnalysisError(f"{q}: parameters are {f.params}")
+    R_ = lambda n: sp.Symbol(n, real=True)   # noqa: E731
+    F = sp.Function
+    loops = [st for st in f.node.body if isinstance(st, ast.For) and isinstance(st.target, ast.Tuple) and len(st.target.elts) == 2
+             and all(isinstance(e, ast.Name) for e in st.target.elts)]
+    T0 = PathTable(prog, f.module)._T({})
+    loops = [lp for lp in loops if T0.tr(lp.iter) == F("items")(R_("READ_FUNCTION_DICT"))]
+    if len(loops) != 1:
+        ck.violation("C07.R2", q, "format dispatch", "read_single does not try the readers of READ_FUNCTION_DICT in order", loc=f.loc())
+        return
+    lp = loops[0]
+    FT, RF = R_("<format>"), R_("<reader>")
+    leaves = PathTable(prog, f.module, env={lp.target.elts[0].id: FT, lp.target.elts[1].id: RF}).leaves(lp.body)
+    want_call = F("call")(RF, R_("fnames"), F("kw_obspy_read_kwargs")(R_("obspy_read_kwargs")), F("kw_degrees_from_north")(R_("degrees_from_north")))
+    alt_call = F("call")(RF, R_("fnames"), R_("obspy_read_kwargs"), R_("degrees_from_north"))
+    peer = sp.Eq(FT, sp.Symbol("'peer'"), evaluate=False)
+    problems = []
+    seen = set()
+    for l in leaves:
+        lits = literals(l)
+        failed = any("raised(" in str(x) for x in lits)
+        is_peer = True if any(same_rel(x, peer) for x in lits) else False if any(same_rel(x, sp.Ne(FT, sp.Symbol("'peer'"), evaluate=False)) for x in lits) else None
+        calls = {a_ for v in list(l.env.values()) + ([l.value] if l.value is not None else []) for a_ in sp.preorder_traversal(sp.sympify(v))
+                 if getattr(getattr(a_, "func", None), "__name__", "") == "call" and a_.args and a_.args[0] == RF}
+        if not failed:
+            seen.add("success")
+            if l.exit not in ("break", "return"):
+                problems.append("a successful read does not end the search")
+            if not calls or not calls <= {want_call, alt_call}:
+                problems.append(f"the reader is called as {sorted(map(str, calls))}, not with (fnames, obspy_read_kwargs, degrees_from_north)")
+            if l.exit == "return" and l.value not in (want_call, alt_call):
+                problems.append(f"the value returned on success is {l.value}")
+        elif is_peer is True:
+            seen.add("last fails")
+            if l.exit != "raise":
+                problems.append("the failure of the last reader (peer) is not re-raised")
+        elif is_peer is False:
+            seen.add("other fails")
+            if l.exit not in ("fall", "continue"):
+                problems.append(f"after a failed reader the search does not go on ({l.exit})")
+        else:
+            problems.append("a failed read is handled without distinguishing the last reader")
+    if seen != {"success", "last fails", "other fails"}:
+        problems.append(f"outcomes covered: {sorted(seen)}")
+    # what comes after an exhausted search / which value is returned after `break`
+    rets = [r for r in own_nodes(f.node) if isinstance(r, ast.Return) and not any(r is x for x in ast.walk(lp))]
+    for r in rets:
+        if not (isinstance(r.value, ast.Name) and any(isinstance(x, ast.Assign) and any(isinstance(t, ast.Name) and t.id == r.value.id for t in x.targets) for x in ast.walk(lp))):
+            problems.append(f"`{norm_key(r, 60)}` does not return the recording read in the loop")
+    if not problems:
+        ck.ok("C07.R2", q, "each reader gets (fnames, obspy_read_kwargs, degrees_from_north); first success wins; failure of the last reader re-raises",
+              detail=f"{len(leaves)} paths through one pass of the loop")
     else:
-        ck.violation("C07.R2", q, "format dispatch", "read_single does not try every reader with the caller's arguments and re-raise after the last one", loc=f.loc())
-    rd = reaching(f)
-    for p in f.params:
-        uses = [n for n in own_nodes(f.node) if isinstance(n, ast.Name) and n.id == p and isinstance(n.ctx, ast.Load)]
-        if any(not rd.only_param(p, u) for u in uses):
-            ck.violation("C07.R2", q, f"{p} rebound", f"`{p}` is rebound before it is handed to the readers", loc=f.loc())
+        ck.violation("C07.R2", q, "format dispatch", "read_single does not try every reader with the caller's arguments and re-raise after the last one: " + "; ".join(sorted(set(problems))[:3]), loc=f.loc())
+
 
 
 def _single_types(c, subject) -> Optional[set]:
